@@ -557,6 +557,35 @@ impl Cluster {
         self.run_until(move || slot.lock().unwrap().is_some(), |_| 0);
     }
 
+    /// Run until `op` has finished, but leave the store's completion notifications
+    /// (AddLocalRecordAsStored / RemoveFailedLocalRecord) pending: the validation has returned while the
+    /// driver has not yet handled the write's completion — the state in which the next delivery may arrive.
+    pub fn settle_op_holding_acks<T>(&mut self, op: &Op<T>) {
+        let t0 = Instant::now();
+        let mut idle = 0;
+        loop {
+            self.run_tasks();
+            self.collect();
+            if let Some(i) = self.pending.iter().position(|a| !a.is_notification()) {
+                idle = 0;
+                self.step(i);
+                continue;
+            }
+            if op.done() {
+                idle += 1;
+                if idle >= 3 {
+                    return;
+                }
+                continue;
+            }
+            self.rt.block_on(async { tokio::time::sleep(Duration::from_micros(300)).await });
+            if t0.elapsed() > Duration::from_secs(10) {
+                self.inconclusive = true;
+                return;
+            }
+        }
+    }
+
     // ---- observations through the real command arms ---------------------------------------------
 
     pub fn local_get(&mut self, n: usize, key: &RecordKey) -> Option<Record> {
